@@ -99,6 +99,9 @@ def execute(prop, cfg, ops=None, streams=None, max_ops=None):
     }
 
 
+HANG_LIMIT = 6  # hung runs after which a batch stops scheduling further chunks
+
+
 def _child(prop, seed, run, tier, cfg, ops, wfd):
     try:
         faulthandler.dump_traceback_later(WATCHDOG_S, exit=True)
@@ -164,9 +167,17 @@ def _chunk_worker(args):
 
     prop = load_prop(prop_name)
     agg = new_agg()
-    for run in runs:
+    hangs = 0
+    for i, run in enumerate(runs):
         res = run_isolated(prop, seed, run, tier)
         merge_run(agg, run, res)
+        if res.get("hang"):
+            hangs += 1
+            if hangs >= 2:
+                # a tree on which runs hang: every further hang costs a whole watchdog period, and the ones seen
+                # are reported - the rest of this chunk is left out (counted, never silently)
+                agg["stats"]["runs_skipped_after_hangs"] += len(runs) - i - 1
+                break
     agg["states"] = sorted(agg["states"])
     agg["digests_nt"] = sorted(agg["digests_nt"])
     return agg
@@ -254,7 +265,16 @@ def run_batch(prop, seed, tier, runs, jobs=None):
         with cf.ProcessPoolExecutor(max_workers=jobs, mp_context=mp.get_context("fork")) as ex:
             futs = [ex.submit(_chunk_worker, (prop.ID, seed, tier, c)) for c in chunks]
             for f in cf.as_completed(futs):
+                if f.cancelled():
+                    continue
                 merge_agg(agg, f.result())
+                if sum(1 for e in agg["errors"] if e.get("hang")) >= HANG_LIMIT:
+                    n = 0
+                    for g in futs:
+                        if not g.done() and g.cancel():
+                            n += 1
+                    if n:
+                        agg["stats"]["chunks_cancelled_after_hangs"] += n
     agg["violations"].sort(key=lambda v: v["run"])
     agg["errors"].sort(key=lambda v: v["run"])
     agg["samples"].sort(key=lambda v: v["run"])
